@@ -204,6 +204,7 @@ def canon(text):
     t = " ".join(pre + toks)
     # `ret 0` == `ret` (AsmJit drops a zero pop count); xchg/test operands commute
     t = re.sub(r"\b(ret|retf|retfq|retfw|lret) 0x0$", r"\1", t)
+    t = re.sub(r",0x1$", ",1", t)   # shift/rotate by 1: the imm8 form and the by-one form mean the same
     m = re.match(r"^((?:[a-z0-9]+ )*)(xchg|test) ([^,]+),(.+)$", t)
     if m:
         a, b = sorted([m.group(3).strip(), m.group(4).strip()])
